@@ -64,6 +64,62 @@ def make(kind, s, mol, name="s", off=0):
     return new_alignment.make_unaligned_seqs({name: s}, moltype=mol).get_seq(name)
 
 
+# which raw-data representations each constructor takes (the handlers of _coerce_to_seqview / coerce_to_seqs_data_dict)
+ACCEPTS = {
+    "old": ("str", "bytes", "tuple", "list", "seqview", "sequence"),
+    "new": ("str", "bytes", "tuple", "list", "seqview", "sequence"),
+    "sdv": ("str", "bytes", "array"),
+}
+
+
+def make_from(kind, rep, s, off, name="s"):
+    """(sequence made from `s` given as representation `rep`, the existing object handed over or None);
+    None when that constructor does not take the representation"""
+    if rep not in ACCEPTS[kind] or (kind == "sdv" and (off or not s)):
+        return None
+    from cogent3.core.new_moltype import get_moltype
+
+    dna = get_moltype("dna")
+    source = None
+    if rep == "str":
+        data = s
+    elif rep == "bytes":
+        data = s.encode("utf8")
+    elif rep == "tuple":
+        data = tuple(s)
+    elif rep == "list":
+        data = list(s)
+    elif rep == "array":
+        data = dna.most_degen_alphabet().to_indices(s)
+    elif rep == "seqview":
+        if kind == "old":
+            from cogent3.core.sequence import SeqView
+
+            data = source = SeqView(seq=s, seqid=name)
+        else:
+            from cogent3.core.new_sequence import SeqView
+
+            data = source = SeqView(seq=s, seqid=name, alphabet=dna.most_degen_alphabet())
+    elif rep == "sequence":
+        data = source = make(kind, s, "dna", name, 0)
+    else:
+        raise ValueError(rep)
+    if kind == "old":
+        cls = type(make("old", "", "dna", name, 0))
+        return cls(data, name=name, annotation_offset=off), source
+    if kind == "new":
+        return dna.make_seq(seq=data, name=name, annotation_offset=off, check_seq=isinstance(data, (str, bytes))), source
+    from cogent3.core import new_alignment
+
+    return new_alignment.make_unaligned_seqs({name: data}, moltype="dna").get_seq(name), source
+
+
+def source_reading(src):
+    """what an object handed to a constructor reads: it must read the same afterwards"""
+    w = src._seq if hasattr(src, "_seq") else src
+    return (str(src), int(w.start), int(w.stop), int(w.step), int(w.offset))
+
+
 def pyarg(x):
     return None if x == TABLES["none"] else x
 
